@@ -212,7 +212,7 @@ func execRead(out *core.Out, id string, st *Stream, exp []Ev, ex rdExec, r *gen.
 			if !reflect.DeepEqual(v, want) {
 				return fail("readjson-mismatch", fmt.Sprintf("ReadJSON of message %d decoded a different value", i))
 			}
-			rd.Got = append(rd.Got, Got{Type: 1, Data: exp[i].Data})
+			rd.Got = append(rd.Got, Got{Type: exp[i].Kind, Data: exp[i].Data})
 			out.Count("readjson_messages", 1)
 			ok = true
 		} else {
